@@ -98,6 +98,18 @@ pub fn run<A: Cx>(d: &mut Drv<A>, scale: usize, all: bool) {
             // a | b contains both, both contain a & b
             d.emit(json!({"op": "contains", "x": {"kind": "seq", "src": whole(4)}, "y": sl(0, oa, oa + n)}));
             d.emit(json!({"op": "contains", "x": {"kind": "slice", "src": sl(1, ob, ob + n)}, "y": whole(5)}));
+            // operands that are static literals / slices a k-mer dereferences to, against an equally long window
+            {
+                let (fs, fl) = d.foreign_src();
+                let t = d.rand_syms(ob + fl + 1);
+                d.emit(json!({"op": "fromsyms", "dst": 7, "c": "iupac", "via": "iter", "syms": t}));
+                let win = sl(7, ob, ob + fl);
+                for (x, y) in [(fs.clone(), win.clone()), (win.clone(), fs.clone()), (fs.clone(), fs.clone())] {
+                    d.emit(json!({"op": "bitop", "dst": 8, "x": x.clone(), "y": y.clone(), "t": "or", "via": "ref"}));
+                    d.emit(json!({"op": "bitop", "dst": 9, "x": x.clone(), "y": y.clone(), "t": "and", "via": "ref"}));
+                    d.emit(json!({"op": "contains", "x": {"kind": "slice", "src": x.clone()}, "y": y.clone()}));
+                }
+            }
         }
         d.reset();
     }
